@@ -1089,6 +1089,38 @@ def propagate_attribute_aliases(trees: Dict[str, ast.Module]) -> int:
                     ast.fix_missing_locations(x) if isinstance(x, ast.stmt) else None
                 done += 1
 
+    def store_and_keep(fn: ast.FunctionDef):
+        """x = V ; self.a = x   (adjacent, x bound once)   is   self.a = V ; x = self.a : the local is an alias of the attribute from
+        then on, which the passes below resolve where the attribute is stable"""
+        stores = {}
+        for y in ast.walk(fn):
+            if isinstance(y, ast.Name) and isinstance(y.ctx, (ast.Store, ast.Del)):
+                stores[y.id] = stores.get(y.id, 0) + 1
+        for y in ast.walk(fn):
+            for fld in ("body", "orelse", "finalbody"):
+                b = getattr(y, fld, None)
+                if not (isinstance(b, list) and b and isinstance(b[0], ast.stmt)):
+                    continue
+                for i in range(len(b) - 1):
+                    s1, s2 = b[i], b[i + 1]
+                    if isinstance(s1, ast.Assign) and len(s1.targets) == 1 and isinstance(s1.targets[0], ast.Name) and stores.get(s1.targets[0].id) == 1 \
+                            and isinstance(s2, ast.Assign) and len(s2.targets) == 1 and isinstance(s2.targets[0], ast.Attribute) and _chain_text(s2.targets[0]) \
+                            and isinstance(s2.value, ast.Name) and s2.value.id == s1.targets[0].id and not isinstance(s1.value, (ast.Attribute, ast.Name, ast.Constant)):
+                        x_, chain_ = s1.targets[0], s2.targets[0]
+                        n1 = ast.copy_location(ast.Assign(targets=[chain_], value=s1.value), s1)
+                        load = copy.deepcopy(chain_)
+                        for z in ast.walk(load):
+                            if hasattr(z, "ctx"):
+                                z.ctx = ast.Load()
+                        n2 = ast.copy_location(ast.Assign(targets=[x_], value=load), s2)
+                        b[i], b[i + 1] = n1, n2
+                        ast.fix_missing_locations(n1)
+                        ast.fix_missing_locations(n2)
+
+    for t in trees.values():
+        for x in ast.walk(t):
+            if isinstance(x, ast.FunctionDef):
+                store_and_keep(x)
     for t in trees.values():
         for x in ast.walk(t):
             if isinstance(x, ast.FunctionDef):
